@@ -125,7 +125,7 @@ def stepApi (m ident store grants wspec extra impl : String) : String :=
       let mayGet := fun (s : String) => grantedB specRelation 1 specNames check ⟨claims, storeSym s, "GetStore", []⟩
       let leaked := listed.filter (fun s => !mayGet s)
       if !leaked.isEmpty then
-        (if ids.isEmpty then specViol s!"F3 ListStores leaks stores when the granted list is empty: returned {",".intercalate leaked} to a caller that may get none of them"
+        (if ids.isEmpty then specViol s!"ListStores leaks stores when the granted list is empty (regression of F3, fixed by commit 31b7057): returned {",".intercalate leaked} to a caller that may get none of them"
          else specViol s!"ListStores returned stores the caller may not get: {",".intercalate leaked}")
       else if impl.startsWith "ok" ∧ !(authorizeSystem specRelation specNames check claims "ListStores" == .ok ()) then
         specViol "ListStores answered a caller without can_call_list_stores"
